@@ -1,7 +1,7 @@
 (** C16 — scanning restores and repairs the wallet to the chain's truth, idempotently.
     Statements only (proofs: theories/ScanProofs.v). Which chain outputs belong to the seed
     (range-proof rewind) is an oracle: the list [chain] of the seed's outputs in the UTXO set. *)
-From GW Require Import Scan ScanProofs LedgerProofs.
+From GW Require Import Scan ScanProofs ScanRepairProofs LedgerProofs.
 
 (** The PMMR paging loop of collect_chain_outputs, for EVERY batch size >= 1 the node may use
     and every start index: it terminates within one call per position and returns exactly the
@@ -45,9 +45,12 @@ Print Assumptions C16_restore_idempotent.
 
 (** Repair, fixpoint form: a wallet in which every chain output of the seed is recorded and
     not marked Spent (and, when pending transactions are dropped, none is Locked and nothing is
-    Unconfirmed) is left exactly as it is — a completed repair is stable. That a repair reaches
-    such a state for arbitrary injected divergences is checked by the correspondence run and
-    its second-scan oracle, not proved (C16_repair_partial). *)
+    Unconfirmed) is left exactly as it is — a completed repair is stable. That a repair which
+    KEEPS pending transactions reaches such a state from any wallet is C16_repair_converges
+    below; for a repair that DROPS them (delete_unconfirmed) it is checked by the correspondence
+    run and its second-scan oracle, not proved: the open finding C16-unconfirmed-on-chain (an
+    Unconfirmed record whose commitment is on chain is dropped and re-created by the next scan)
+    is a counterexample to the unrestricted statement. *)
 Theorem C16_repair_partial_stable : forall w chain del,
   accidental (w_outs w) chain = [] -> missing (w_outs w) chain = [] ->
   (del = true -> locked_on_chain (w_outs w) chain = []
@@ -55,6 +58,20 @@ Theorem C16_repair_partial_stable : forall w chain del,
   scan_repair w chain del = w.
 Proof. exact scan_noop. Qed.
 Print Assumptions C16_repair_partial_stable.
+
+(** Repair, convergence: from ANY wallet whose table has distinct DB keys (every reachable
+    state: C05_wf_reachable) — records wrongly marked Spent, outputs missing, stale records
+    under the restored keys, in any combination — one scan that keeps pending transactions ends
+    in a state where every chain output of the seed has a record, the record a scan looks at
+    for it is not marked Spent, and a second scan changes nothing. Premise: no derivation path
+    occurs twice among the seed's chain outputs (C15). *)
+Theorem C16_repair_converges : forall w chain,
+  WF w -> NoDup (map co_key chain) ->
+  let w' := scan_repair w chain false in
+  (forall d, In d chain -> exists o, find_match (w_outs w') d = Some o /\ r_status o <> Spent)
+  /\ scan_repair w' chain false = w'.
+Proof. exact scan_repairs_any_wallet. Qed.
+Print Assumptions C16_repair_converges.
 
 (** non-vacuity: paging 7 positions (leaves at 2, 3, 5, 7) with batches of 1, 2 and 1000;
     restoring two accounts' outputs that appear on chain out of derivation order. *)
@@ -72,3 +89,17 @@ Example C16_restore_example :
   = [((0, 0), 5, Unspent, 0); ((0, 1), 7, Unspent, 0); ((1, 3), 60, Unspent, 1)]
   /\ w_child w = [(0, 2); (1, 4)].
 Proof. vm_compute. split; reflexivity. Qed.
+
+(** non-vacuity of the convergence theorem: a wallet that marked an on-chain output Spent and
+    lost another one; one scan repairs both, the second scan is the identity. *)
+Example C16_repair_example :
+  let chain := [mkCO (0, 0) 5 6 6 false 15; mkCO (0, 1) 7 4 4 false 10] in
+  let w := wallet_of [mkO 0 (0, 0) None 5 Spent 6 6 false None] [] [(0, 1)] [] [] 0 in
+  WF w /\ NoDup (map co_key chain)
+  /\ map (fun o => (r_key o, r_mmr o, r_status o)) (w_outs (scan_repair w chain false))
+     = [((0, 0), None, Unspent); ((0, 1), Some 10, Unspent)]
+  /\ scan_repair (scan_repair w chain false) chain false = scan_repair w chain false.
+Proof.
+  vm_compute. split; [repeat constructor; intros []|]. split; [|split; reflexivity].
+  repeat constructor; cbn; intuition discriminate.
+Qed.
